@@ -43,6 +43,8 @@ type c11TLSCase struct {
 	// of Dial; RetryTimeoutMs = 0: WithRetryTimeout is not given (the documented default applies)
 	Cluster        bool `json:"dial_cluster,omitempty"`
 	RetryTimeoutMs int  `json:"retry_timeout_ms,omitempty"`
+	// DeadFirst (cluster): the address list is [an address nobody listens on, the server]: the first server of the pool is down for good
+	DeadFirst bool `json:"first_pool_server_is_down,omitempty"`
 }
 
 // recordingListener remembers the connections it accepted so that the test can drop them.
@@ -137,7 +139,16 @@ func c11TLSRun(c c11TLSCase) (sig string, err error) {
 			if c.RetryTimeoutMs > 0 {
 				copts = append(append([]kmipclient.Option{}, opts...), kmipclient.WithRetryTimeout(time.Duration(c.RetryTimeoutMs)*time.Millisecond))
 			}
-			if perr := safely(func() error { cl, derr = kmipclient.DialClusterContext(dctx, []string{addr}, copts...); return nil }); perr != nil {
+			addrs := []string{addr}
+			if c.DeadFirst {
+				// a port that was free a moment ago and on which nobody listens
+				if dl, e := net.Listen("tcp", "127.0.0.1:0"); e == nil {
+					dead := dl.Addr().String()
+					_ = dl.Close()
+					addrs = []string{dead, addr}
+				}
+			}
+			if perr := safely(func() error { cl, derr = kmipclient.DialClusterContext(dctx, addrs, copts...); return nil }); perr != nil {
 				release()
 				return "dial-panics:cluster", fmt.Errorf("DialCluster([1 address]) with retry time-out option %d ms: %w", c.RetryTimeoutMs, perr)
 			}
@@ -254,7 +265,7 @@ func c11TLSRun(c c11TLSCase) (sig string, err error) {
 func TestC11DefaultDialer(t *testing.T) {
 	const name = "TestC11DefaultDialer"
 	rec := evid.New("C11", name, "the client's own TLS dialer (no WithDialerUnsafe) against a real kmipserver on a loopback TLS listener, real time: DialContext under a context that is {background, cancelled right after the dial, a 300 ms timeout that has expired after the dial}, "+
-		"then 3..8 steps of {call, the server drops every connection it holds, a clone makes a call, pause}, in half of the cases with a restart of the server on the same port spliced in (calls being made while it is down and three more after it is back); one client in three is made with DialCluster on a one-address list (retry time-out option absent, 1 ms, 50 ms or 5 s); oracle: no call and no constructor panics, never two failed calls in a row while the server is up, responses echo their own identifier, Clone works, a fresh clone's first call succeeds; "+
+		"then 3..8 steps of {call, the server drops every connection it holds, a clone makes a call, pause}, in half of the cases with a restart of the server on the same port spliced in (calls being made while it is down and three more after it is back); one client in three is made with DialCluster on a one-address list or on [a dead address, the server] (retry time-out option absent, 1 ms, 50 ms or 5 s); oracle: no call and no constructor panics, never two failed calls in a row while the server is up, responses echo their own identifier, Clone works, a fresh clone's first call succeeds; "+
 		"non-trivial = a drop is followed by a call or a clone; distinct by case").Attach(t)
 	if rp := evid.LoadReplay(name); rp != nil {
 		var c c11TLSCase
@@ -274,6 +285,7 @@ func TestC11DefaultDialer(t *testing.T) {
 		if rapid.IntRange(0, 2).Draw(rt, "cluster") == 0 {
 			c.Cluster = true
 			c.RetryTimeoutMs = rapid.SampledFrom([]int{0, 1, 50, 5000, 5000}).Draw(rt, "retrytimeout")
+			c.DeadFirst = rapid.Bool().Draw(rt, "deadfirst")
 		}
 		if rapid.IntRange(0, 1).Draw(rt, "restart") == 0 {
 			// the server goes down and comes back (same port) somewhere in the script, calls being made meanwhile and afterwards
